@@ -236,7 +236,7 @@ def run(ctx):
                            f"this return is taken regardless of `{p}`, while other returns of {qual} depend "
                            f"on it: the result has the wrong shape for one value of `{p}` (e.g. no "
                            "exclusive stop for an empty array)", n.line)
-    ctx.floor("mode-returns", n_mode, 2)
+    ctx.floor("mode-returns", n_mode, 1)       # (two returns that differ only in the mode may be one return of a conditional expression)
 
     # ---------------- R5 segment lookup --------------------------------------
     from ..program import expand_sibling_calls
